@@ -12,6 +12,7 @@ import GoNeat.Driver.Parallel
 import GoNeat.Driver.IO
 import GoNeat.Driver.Innov
 import GoNeat.Driver.History
+import GoNeat.Driver.Sort
 
 namespace GoNeat.Driver
 def allOps : List (String × Handler) :=
@@ -28,4 +29,5 @@ def allOps : List (String × Handler) :=
   ++ ioOps
   ++ innovOps
   ++ historyOps
+  ++ sortOps
 end GoNeat.Driver
